@@ -13,7 +13,8 @@
     5. `rejected_stays_literal` the inline branch of `parse_link` never returns a link whose destination
                                was rejected (needs two facts about the decoder, `DecOk`)
   plus what is rejected (`validate_rejects*`), and the destination / title parsers
-  (`dest_spec`, `dest_pos_bounds`, `dest_no_ctrl`, `title_delims`, totality / exact panic conditions
+  (`dest_spec`, `dest_pos_bounds`, `dest_no_ctrl`, `dest_lines_zero_sound`, `title_delims`,
+  `title_lines_exact`, totality / exact panic conditions
   `dest_total`, `dest_panics_iff`, `title_total`, `title_panics_iff`, `tail_total`).
   The full list of property theorems is `Audit/C04.lean`.
 -/
@@ -743,7 +744,7 @@ theorem dest_panics_iff (str : List Char) (start max : Nat) :
     simp [h]
 
 /-- **C04 (destination parser, shape of a result).** A successful parse consumed, from `start`,
-    either `<raw>` with `raw` free of unescaped line feeds and angle brackets, or a bare `raw`
+    either `<raw>` with `raw` free of line feeds and of unescaped angle brackets, or a bare `raw`
     with balanced unescaped parentheses (depth ≤ 32) that stops for one of the listed reasons;
     `lines` is 0. -/
 theorem dest_spec (str : List Char) (start max : Nat) (f : Frag)
@@ -806,84 +807,116 @@ theorem isBareStop_bs : isBareStop '\\' = false := by decide
 theorem isBareStop_lp : isBareStop '(' = false := by decide
 theorem isBareStop_rp : isBareStop ')' = false := by decide
 
-/-- a bare destination never contains a space -/
-theorem BareToks.no_space {l l' : Nat} {raw : List Char} (h : BareToks l raw l') : ' ' ∉ raw := by
+/-- a bare destination contains no space and no control character at all — every character of it,
+    also one directly after a backslash, has a code > 0x20 and ≠ 0x7F -/
+theorem BareToks.no_ctrl {l l' : Nat} {raw : List Char} (h : BareToks l raw l') :
+    ∀ c ∈ raw, isBareStop c = false := by
   induction h with
   | nil => simp
   | esc l l' x r hx _ ih =>
+    intro c hc
+    simp only [List.mem_cons] at hc
+    rcases hc with rfl | rfl | hc
+    · exact isBareStop_bs
+    · exact hx
+    · exact ih c hc
+  | opn l l' r _ _ ih =>
+    intro c hc
+    simp only [List.mem_cons] at hc
+    rcases hc with rfl | hc
+    · exact isBareStop_lp
+    · exact ih c hc
+  | cls l l' r _ _ ih =>
+    intro c hc
+    simp only [List.mem_cons] at hc
+    rcases hc with rfl | hc
+    · exact isBareStop_rp
+    · exact ih c hc
+  | plain l l' c0 r h0 _ _ _ _ ih =>
+    intro c hc
+    simp only [List.mem_cons] at hc
+    rcases hc with rfl | hc
+    · exact h0
+    · exact ih c hc
+
+theorem BareToks.no_space {l l' : Nat} {raw : List Char} (h : BareToks l raw l') : ' ' ∉ raw := by
+  intro hm
+  have := h.no_ctrl ' ' hm
+  rw [isBareStop_space] at this; cases this
+
+theorem isBareStop_nl : isBareStop '\n' = true := by decide
+
+theorem BareToks.no_lf {l l' : Nat} {raw : List Char} (h : BareToks l raw l') : '\n' ∉ raw := by
+  intro hm
+  have := h.no_ctrl '\n' hm
+  rw [isBareStop_nl] at this; cases this
+
+/-- byte view: a character that is not a stop character has no UTF-8 byte ≤ 0x20 and no 0x7F -/
+theorem utf8Char_no_ctrl (c : Char) (hc : isBareStop c = false) :
+    ∀ b ∈ utf8Char c, 32 < b ∧ b ≠ 127 := by
+  simp only [isBareStop, Bool.or_eq_false_iff, decide_eq_false_iff_not, beq_eq_false_iff_ne] at hc
+  intro b hb
+  unfold utf8Char at hb
+  simp only at hb
+  split at hb
+  · simp at hb; omega
+  · split at hb
+    · simp at hb; omega
+    · split at hb
+      · simp at hb; omega
+      · simp at hb; omega
+
+/-- the text between `<` and `>` contains no line feed at all -/
+theorem AngleToks.no_lf {raw : List Char} (h : AngleToks raw) : '\n' ∉ raw := by
+  induction h with
+  | nil => simp
+  | esc x r hx _ ih =>
     simp only [List.mem_cons, not_or]
     exact ⟨by decide, fun e => hx e.symm, ih⟩
-  | opn l l' r _ _ ih => simp only [List.mem_cons, not_or]; exact ⟨by decide, ih⟩
-  | cls l l' r _ _ ih => simp only [List.mem_cons, not_or]; exact ⟨by decide, ih⟩
-  | plain l l' c r hc _ _ _ _ ih =>
+  | plain c r h1 _ _ _ _ ih =>
     simp only [List.mem_cons, not_or]
-    refine ⟨fun e => ?_, ih⟩
-    rw [← e, isBareStop_space] at hc; cases hc
+    exact ⟨fun e => h1 e.symm, ih⟩
 
-/-- in a bare destination every control character (≤ 0x20 or 0x7F) stands directly after a
-    backslash.  NOTE: they CAN occur there — `[a](b\<TAB>c)` and `[a](b\<LF>c)` are links in this
-    implementation (destination `b%5C%09c`, `b%5C%0Ac`), so the slogan "a bare destination contains
-    no control character" is false; this is the true statement. -/
-theorem BareToks.ctrl_escaped {l l' : Nat} {raw : List Char} (h : BareToks l raw l') :
-    ∀ a c b, raw = a ++ c :: b → isBareStop c = true → ∃ a', a = a' ++ ['\\'] := by
-  induction h with
-  | nil => intro a c b e; simp at e
-  | esc l l' x r _ _ ih =>
-    intro a c b e hc
-    match a, e with
-    | [], e => simp at e; rw [← e.1, isBareStop_bs] at hc; cases hc
-    | [y], e => simp at e; exact ⟨[], by rw [← e.1]; rfl⟩
-    | y :: z :: a'', e =>
-      simp at e
-      obtain ⟨a', rfl⟩ := ih a'' c b e.2.2 hc
-      exact ⟨y :: z :: a', by simp⟩
-  | opn l l' r _ _ ih =>
-    intro a c b e hc
-    match a, e with
-    | [], e => simp at e; rw [← e.1, isBareStop_lp] at hc; cases hc
-    | y :: a'', e =>
-      simp at e
-      obtain ⟨a', rfl⟩ := ih a'' c b e.2 hc
-      exact ⟨y :: a', by simp⟩
-  | cls l l' r _ _ ih =>
-    intro a c b e hc
-    match a, e with
-    | [], e => simp at e; rw [← e.1, isBareStop_rp] at hc; cases hc
-    | y :: a'', e =>
-      simp at e
-      obtain ⟨a', rfl⟩ := ih a'' c b e.2 hc
-      exact ⟨y :: a', by simp⟩
-  | plain l l' c0 r h0 _ _ _ _ ih =>
-    intro a c b e hc
-    match a, e with
-    | [], e => simp at e; rw [← e.1, h0] at hc; cases hc
-    | y :: a'', e =>
-      simp at e
-      obtain ⟨a', rfl⟩ := ih a'' c b e.2 hc
-      exact ⟨y :: a', by simp⟩
-
-/-- **C04 (`dest_no_ctrl`).** For a bare destination: no space at all; a control character only
-    directly after a backslash; unescaped parentheses balanced and never closing below depth 0
-    (that is `BareToks 0 raw 0`). -/
+/-- **C04 (`dest_no_ctrl`, strong form).** For a bare destination: the raw slice contains NO byte
+    ≤ 0x20 and no 0x7F (hence no blank, no line ending, no control character, escaped or not);
+    unescaped parentheses are balanced and never close below depth 0 (`BareToks 0 raw 0`). -/
 theorem dest_no_ctrl (str : List Char) (start max : Nat) (f : Frag)
     (h : parseLinkDestination str start max = .ok (some f))
     (hb : ∀ chars, slice str start max = .ok chars → ∀ r, chars ≠ '<' :: r) :
-    BareToks 0 f.raw 0 ∧ ' ' ∉ f.raw ∧
-      ∀ a c b, f.raw = a ++ c :: b → isBareStop c = true → ∃ a', a = a' ++ ['\\'] := by
+    BareToks 0 f.raw 0 ∧ (∀ c ∈ f.raw, isBareStop c = false) ∧
+      ∀ b ∈ utf8 f.raw, 32 < b ∧ b ≠ 127 := by
   obtain ⟨_, chars, hs, hc⟩ := dest_spec str start max f h
   rcases hc with ⟨suf, rfl, _⟩ | ⟨suf, _, _, _, ht, _, _⟩
   · exact absurd rfl (hb _ hs _)
-  · exact ⟨ht, ht.no_space, ht.ctrl_escaped⟩
+  · refine ⟨ht, ht.no_ctrl, ?_⟩
+    intro b hbm
+    simp only [utf8, List.mem_flatMap] at hbm
+    obtain ⟨c, hc, hbc⟩ := hbm
+    exact utf8Char_no_ctrl c (ht.no_ctrl c hc) b hbc
+
+/-- **C04 (`dest_lines_zero_sound`).** The raw slice of a successful destination — either form —
+    contains no line feed, so the `lines: 0` it reports is exact.  (The reference-definition rule
+    adds `res.lines` to find the end of the definition.) -/
+theorem dest_lines_zero_sound (str : List Char) (start max : Nat) (f : Frag)
+    (h : parseLinkDestination str start max = .ok (some f)) :
+    f.lines = 0 ∧ '\n' ∉ f.raw ∧ f.lines = f.raw.count '\n' := by
+  obtain ⟨hl, chars, hs, hc⟩ := dest_spec str start max f h
+  have hno : '\n' ∉ f.raw := by
+    rcases hc with ⟨_, _, _, ht, _⟩ | ⟨_, _, _, _, ht, _, _⟩
+    · exact ht.no_lf
+    · exact ht.no_lf
+  exact ⟨hl, hno, by rw [hl, List.count_eq_zero.2 hno]⟩
 
 /-! ## `parse_link_title` -/
 
-/-- title text for closing marker `m`, with the number of line feeds the scanner COUNTS:
-    a line feed (counted); backslash + any character (a line feed there is NOT counted);
-    any other character except the marker, and except `(` in a `(…)` title -/
+/-- title text for closing marker `m`, with the number of line feeds the scanner counts:
+    a line feed; backslash + any character (a line feed there is counted too); any other character
+    except the marker, and except `(` in a `(…)` title -/
 inductive TitleToks (m : Char) : List Char → Nat → Prop
   | nil : TitleToks m [] 0
   | nl (r : List Char) (n : Nat) : TitleToks m r n → TitleToks m ('\n' :: r) (n + 1)
-  | esc (x : Char) (r : List Char) (n : Nat) : TitleToks m r n → TitleToks m ('\\' :: x :: r) n
+  | esc (x : Char) (r : List Char) (n : Nat) : TitleToks m r n →
+      TitleToks m ('\\' :: x :: r) (if x = '\n' then n + 1 else n)
   | plain (c : Char) (r : List Char) (n : Nat) : c ≠ m → ¬ (c = '(' ∧ m = ')') → c ≠ '\n' →
       c ≠ '\\' → TitleToks m r n → TitleToks m (c :: r) n
 
@@ -900,7 +933,8 @@ theorem titleLoop_spec (m : Char) (cs : List Char) (p0 l0 pos l : Nat)
   | case5 => cases h
   | case6 p lv x cs _ _ _ ih =>
     obtain ⟨pre, suf, n, rfl, hp, hl, ht⟩ := ih h
-    exact ⟨'\\' :: x :: pre, suf, n, rfl, by simp [byteLen, clen_bs]; omega, hl, .esc x pre n ht⟩
+    refine ⟨'\\' :: x :: pre, suf, _, rfl, by simp [byteLen, clen_bs]; omega, ?_, .esc x pre n ht⟩
+    by_cases hx : x = '\n' <;> simp only [hx, if_true, if_false] at hl ⊢ <;> omega
   | case7 c cs p lv h1 h2 h3 h4 ih =>
     obtain ⟨pre, suf, n, rfl, hp, hl, ht⟩ := ih h
     exact ⟨c :: pre, suf, n, rfl, by simp [byteLen]; omega, hl, .plain c pre n h1 h2 h3 h4 ht⟩
@@ -967,8 +1001,7 @@ theorem title_panics_iff (str : List Char) (start max : Nat) :
 /-- **C04 (`title_delims`).** A successful title parse consumed, from `start`, exactly
     `o raw m` where `(o, m)` is one of `"…"`, `'…'`, `(…)`; `raw` has no unescaped `m` (nor an
     unescaped `(` in the parenthesised form); `pos` is just behind the closing marker, within
-    `max`, on a character boundary; `lines` counts the line feeds of `raw` that are not hidden
-    behind a backslash. -/
+    `max`, on a character boundary; `lines` counts the line feeds of `raw` (`TitleToks.lines_eq`). -/
 theorem title_delims (str : List Char) (start max : Nat) (f : Frag)
     (h : parseLinkTitle str start max = .ok (some f)) :
     ∃ o m suf, titleMarker o = some m ∧ slice str start max = .ok (o :: f.raw ++ m :: suf) ∧
@@ -1002,19 +1035,29 @@ theorem title_delims (str : List Char) (start max : Nat) (f : Frag)
           · exact ⟨pre ++ (o :: raw ++ [m]), suf ++ post, by simp [hstr], by
               simp [byteLen, byteLen_append, hc.1, hc.2]; omega⟩
 
-/-- the counted line feeds are at most the line feeds present … -/
-theorem TitleToks.lines_le {m : Char} {raw : List Char} {n : Nat} (h : TitleToks m raw n) :
-    n ≤ raw.count '\n' := by
+/-- the counted line feeds are exactly the line feeds present -/
+theorem TitleToks.lines_eq {m : Char} {raw : List Char} {n : Nat} (h : TitleToks m raw n) :
+    n = raw.count '\n' := by
   induction h with
   | nil => simp
-  | nl r n _ ih => simp; omega
+  | nl r n _ ih => simp [ih]
   | esc x r n _ ih =>
-    have : List.count '\n' r ≤ List.count '\n' ('\\' :: x :: r) := by
-      rw [List.count_cons, List.count_cons]; omega
-    omega
-  | plain c r n _ _ _ _ _ ih =>
-    have : List.count '\n' r ≤ List.count '\n' (c :: r) := by rw [List.count_cons]; omega
-    omega
+    rw [List.count_cons, List.count_cons, ← ih]
+    have h1 : ('\\' == '\n') = false := by decide
+    by_cases hx : x = '\n'
+    · subst hx; simp
+    · have h2 : (x == '\n') = false := by simpa using hx
+      simp [h1, h2, hx]
+  | plain c r n _ _ h3 _ _ ih =>
+    have h2 : (c == '\n') = false := by simpa using h3
+    rw [List.count_cons, ← ih]; simp [h2]
+
+/-- **C04 (`title_lines_exact`).** `lines` of a successful title parse is the number of line feeds
+    in the raw title (the reference-definition rule adds it to find the end of the definition). -/
+theorem title_lines_exact (str : List Char) (start max : Nat) (f : Frag)
+    (h : parseLinkTitle str start max = .ok (some f)) : f.lines = f.raw.count '\n' := by
+  obtain ⟨_, _, _, _, _, _, ht, _⟩ := title_delims str start max f h
+  exact ht.lines_eq
 
 /-! ## a rejected destination never yields an inline link -/
 
@@ -1372,16 +1415,20 @@ example : parseLinkDestination (List.replicate 33 '(' ++ List.replicate 33 ')') 
 /-- unbalanced `(`: no destination -/
 example : parseLinkDestination ['(', 'a'] 0 2 = .ok none := by decide
 
-/-- `b\<TAB>c)`: the TAB after the backslash is part of the bare destination (see
-    `BareToks.ctrl_escaped`); `b\ c` stops before the backslash -/
-example : parseLinkDestination ['b', '\\', '\t', 'c', ')'] 0 5 =
-    .ok (some ⟨4, 0, ['b', '\\', '\t', 'c']⟩) := by decide
+/-- `b\<TAB>c)` and `b\ c)`: a backslash does not escape a blank or a control character, the
+    destination ends BEFORE the backslash (`dest_no_ctrl`); `b\)c)` keeps the escaped `)` -/
+example : parseLinkDestination ['b', '\\', '\t', 'c', ')'] 0 5 = .ok (some ⟨1, 0, ['b']⟩) := by decide
 example : parseLinkDestination ['b', '\\', ' ', 'c', ')'] 0 5 = .ok (some ⟨1, 0, ['b']⟩) := by decide
+example : parseLinkDestination ['b', '\\', '\n', 'c', ')'] 0 5 = .ok (some ⟨1, 0, ['b']⟩) := by decide
+example : parseLinkDestination ['b', '\\', ')', 'c', ')'] 0 5 =
+    .ok (some ⟨4, 0, ['b', '\\', ')', 'c']⟩) := by decide
 
-/-- `<b\<LF>c>`: a line feed after a backslash is accepted inside `<…>`, `lines` stays 0 -/
-example : parseLinkDestination ['<', 'b', '\\', '\n', 'c', '>'] 0 6 =
-    .ok (some ⟨6, 0, ['b', '\\', '\n', 'c']⟩) := by decide
+/-- `<b\<LF>c>` and `<b<LF>c>`: no line feed inside `<…>`, escaped or not
+    (`dest_lines_zero_sound`); `<b\>c>` keeps the escaped `>` -/
+example : parseLinkDestination ['<', 'b', '\\', '\n', 'c', '>'] 0 6 = .ok none := by decide
 example : parseLinkDestination ['<', 'b', '\n', 'c', '>'] 0 5 = .ok none := by decide
+example : parseLinkDestination ['<', 'b', '\\', '>', 'c', '>'] 0 6 =
+    .ok (some ⟨6, 0, ['b', '\\', '>', 'c']⟩) := by decide
 
 /-- titles: the three delimiter pairs -/
 example : parseLinkTitle ['"', 't', '"', ')'] 0 4 = .ok (some ⟨3, 0, ['t']⟩) := by decide
@@ -1396,13 +1443,17 @@ example : parseLinkTitle ['x', '"'] 0 2 = .ok none := by decide
 example : parseLinkTitle ['"', 'a', '\n', 'b', '"'] 0 5 = .ok (some ⟨5, 1, ['a', '\n', 'b']⟩) := by
   decide
 
-/-- … a line feed behind a backslash is NOT (`TitleToks.lines_le` is strict here: `lines = 0`,
-    one line feed in the title).  markdown-it (JS) counts it; `reference.rs` uses `lines` to decide
-    where the definition ends, so `[a]: /u "x\<LF>y"` stores the two-line title AND re-reads `y"` as a
-    paragraph. -/
+/-- … and so is a line feed behind a backslash (`title_lines_exact`: `lines` = number of line
+    feeds in the raw title) -/
 example : parseLinkTitle ['"', 'a', '\\', '\n', 'b', '"'] 0 6 =
-    .ok (some ⟨6, 0, ['a', '\\', '\n', 'b']⟩) := by decide
+    .ok (some ⟨6, 1, ['a', '\\', '\n', 'b']⟩) := by decide
 example : List.count '\n' ['a', '\\', '\n', 'b'] = 1 := by decide
+
+/-- negation witness: the title loop as it was before commit 5a0c4fb reports `lines = 0` for the
+    same text — `title_lines_exact` fails for it (`reference.rs` then ended the definition one
+    line early: `[a]: /u "foo\<LF>bar"` stored the two-line title AND re-read `bar"` as a paragraph) -/
+example : titleLoopPinned '"' ['a', '\\', '\n', 'b', '"'] 1 0 = some (5, 0) := by decide
+example : titleLoop '"' ['a', '\\', '\n', 'b', '"'] 1 0 = some (5, 1) := by decide
 
 /-- `DecOk` is satisfiable (the identity decoder); `unescape_all` satisfies it because neither a
     title opener nor the empty text contains a backslash or an ampersand -/
